@@ -95,6 +95,7 @@ Definition is_abs (s : bytes) : bool := match s with c :: _ => c =? 47 | [] => f
 Definition comps_of (s : bytes) : list comp := filter (fun c => negb (is_nil c)) (split_slash s).
 
 Definition MAXLINKS : nat := 40.
+Definition NAME_MAX : Z := 255.
 
 (** [resolve steps links f cur todo follow]: walk [todo] from the physical
     directory [cur]; symbolic links are followed in intermediate position always
@@ -116,6 +117,7 @@ Fixpoint resolve (steps links : nat) (f : fs) (cur : path) (todo : list comp) (f
         | KDir =>
           if is_nil c || bytes_eqb c DOT then resolve steps' links f cur rest follow
           else if bytes_eqb c DOTDOT then resolve steps' links f (parent cur) rest follow
+          else if NAME_MAX <? Z.of_nat (length c) then Err EOther            (* ENAMETOOLONG *)
           else
             let p := cur ++ [c] in
             match get f p with
@@ -213,6 +215,7 @@ Definition remove (f : fs) (p : path) : result fs :=
   end.
 
 Definition symlink (f : fs) (target : bytes) (p : path) : result fs :=
+  if is_nil target then Err ENoEnt else          (* symlink("", p) = ENOENT *)
   match res_nofollow f p with
   | Ok q =>
       match get f q with
